@@ -55,6 +55,9 @@ def step (s : S) : List String → S × String
   | ["dec"] =>
     let c := s.ctr.decrement
     ({ s with ctr := c }, showCtr c)
+  | ["refill"] =>
+    let c := s.ctr.refill (s.ctr.stop + 1)
+    ({ s with ctr := c }, showCtr c)
   | ["pipe", n] => ({ s with pipe := Pipe.init (nat! n) }, showPipe (Pipe.init (nat! n)))
   | ["q"] => let p := s.pipe.step .query; ({ s with pipe := p }, showPipe p)
   | ["done"] => let p := s.pipe.step .done; ({ s with pipe := p }, showPipe p)
